@@ -340,8 +340,8 @@ func (c *CheckRun) confirmRaces(labels []string, raceInst map[string]*Instance, 
 		if raced || len(failures) > 0 {
 			confirmed++
 			if confirmed <= 6 {
-				path := fmt.Sprintf("%s/evidence/replays/C12-%d.json", verifDir(), confirmed)
-				osMkdirAll(verifDir() + "/evidence/replays")
+				path := fmt.Sprintf("%s/replays/C12-%d.json", evidenceDir(), confirmed)
+				osMkdirAll(evidenceDir() + "/replays")
 				vec.Note = fmt.Sprintf("%s; native: race_detector=%v failures=%v; %s", l, raced, failures, firstLines(out, 12))
 				writeJSON(path, vec)
 				c.Violations = append(c.Violations, path)
